@@ -104,8 +104,8 @@ theorem cv_plain (op : CmpOp) (a b : Value) (ca : clean a = true) (cb : clean b 
     simp only [compareValues, sameClass, if_true, compareNumbersForRange]
     rw [numCmp_nonNaN _ _ rfl rfl ca cb, orderCompare_num E _ _ rfl rfl]
 
-/-- coherence of the strings of two values: the engine compares them as text -/
-def Coh (a b : List Str) : Prop := ∀ x ∈ a, ∀ y ∈ b, strCmp E x y = cmpBytes x y
+/-- coherence of the strings of two values: ordered-equal coincides with text equality -/
+def Coh (a b : List Str) : Prop := ∀ x ∈ a, ∀ y ∈ b, (strCmp E x y = .eq ↔ x = y)
 
 theorem Coh.mono {a b a' b' : List Str} (h : Coh E a b) (ha : ∀ x ∈ a', x ∈ a) (hb : ∀ x ∈ b', x ∈ b) : Coh E a' b' :=
   fun x hx y hy => h x (ha x hx) y (hb y hy)
@@ -162,14 +162,14 @@ theorem ce_eq_oc : ∀ (a b : Value), clean a = true → clean b = true → plai
   | .str x, b, ca, cb, pa, pb, wa, wb, hS => by
     cases b <;> first | (simp [clean] at cb; done) | (simp [plain] at pb; done) | skip
     case str y =>
-      have := hS x (by simp [stringsOf]) y (by simp [stringsOf])
-      simp only [cypherEquals, deq, orderCompare, orderCompareNonNull, Option.getD, this]
+      have hxy := hS x (by simp [stringsOf]) y (by simp [stringsOf])
+      simp only [cypherEquals, deq, orderCompare, orderCompareNonNull, Option.getD]
       congr 1
       by_cases h : x = y
-      · subst h; simp [cmpBytes_eq.2 rfl]
-      · have hne : cmpBytes x y ≠ .eq := fun e => h (cmpBytes_eq.1 e)
+      · subst h; rw [hxy.2 rfl]; simp
+      · have hne : strCmp E x y ≠ .eq := fun e => h (hxy.1 e)
         rw [beq_eq_false_iff_ne.2 h]
-        cases hc : cmpBytes x y <;> first | rfl | exact absurd hc hne
+        cases hc : strCmp E x y <;> first | rfl | exact absurd hc hne
     all_goals diff_class
   | .null, _, ca, _, _, _, _, _, _ => by simp [clean] at ca
   | .map _, _, _, _, pa, _, _, _, _ => by simp [plain] at pa
@@ -265,32 +265,25 @@ theorem cv_conv (op : CmpOp) (a b : Value) : compareValues E op a b = compareVal
 
 /-! ### consistency of `<`, `<=`, `>`, `>=` with `=` on null/NaN-free plain values compared as text -/
 
-theorem strHyp_of_coherent (ss : List Str) (h : textCoherent E ss = true) : StrHyp E ss ss ss := by
-  simp only [textCoherent, List.all_eq_true, beq_iff_eq] at h
-  intro x hx y hy z hz
-  simp only [transAt, h x hx y hy, h y hy z hz, h x hx z hz, Bool.or_eq_true, beq_iff_eq]
-  by_cases h1 : cmpBytes x y = .gt
-  · exact Or.inl (Or.inl h1)
-  · by_cases h2 : cmpBytes y z = .gt
-    · exact Or.inl (Or.inr h2)
-    · exact Or.inr (cmpBytes_laws.trans x y z h1 h2)
+theorem coh_of_strEqOK (ss : List Str) (h : strEqOK E ss = true) : Coh E ss ss := by
+  simp only [strEqOK, List.all_eq_true, beq_iff_eq] at h
+  intro x hx y hy
+  have := h x hx y hy
+  constructor
+  · intro e; rw [e] at this; simpa using this.symm
+  · intro e; subst e
+    cases hc : strCmp E x x <;> simp [hc] at this ⊢
 
-theorem coh_of_coherent (ss : List Str) (h : textCoherent E ss = true) : Coh E ss ss := by
-  simp only [textCoherent, List.all_eq_true, beq_iff_eq] at h
-  exact fun x hx y hy => h x hx y hy
-
-/-- the domain of the ordering laws of C23: well-formed, null/NaN-free, plain values whose strings the
-    engine compares as text -/
+/-- the domain of the ordering laws of C23: well-formed, null/NaN-free, plain values on whose strings
+    ordered-equal is text equality and the comparison is transitive (no trigger of C23 holds) -/
 def lawDomain (vs : List Value) : Bool :=
-  vs.all (fun v => v.wf && clean v && plain v) && textCoherent E (vs.flatMap stringsOf)
+  vs.all (fun v => v.wf && clean v && plain v) &&
+    (strEqOK E (vs.flatMap stringsOf) && strTransOn E (vs.flatMap stringsOf))
 
 theorem lawDomain_ordOK (vs : List Value) (h : lawDomain E vs = true) : ordOK E vs = true := by
   simp only [lawDomain, Bool.and_eq_true, List.all_eq_true] at h
   simp only [ordOK, Bool.and_eq_true, List.all_eq_true]
-  refine ⟨fun v hv => ⟨(h.1 v hv).1.1, plain_mapsNaNFree v (h.1 v hv).2⟩, ?_⟩
-  have := strHyp_of_coherent E _ h.2
-  simp only [strTransOn, List.all_eq_true]
-  exact fun x hx y hy z hz => this x hx y hy z hz
+  exact ⟨fun v hv => ⟨(h.1 v hv).1.1, plain_mapsNaNFree v (h.1 v hv).2⟩, h.2.2⟩
 
 theorem lawDomain_mem {vs : List Value} (h : lawDomain E vs = true) {v : Value} (hv : v ∈ vs) :
     v.wf = true ∧ clean v = true ∧ plain v = true := by
@@ -300,7 +293,7 @@ theorem lawDomain_mem {vs : List Value} (h : lawDomain E vs = true) {v : Value} 
 theorem lawDomain_coh {vs : List Value} (h : lawDomain E vs = true) {a b : Value} (ha : a ∈ vs) (hb : b ∈ vs) :
     Coh E (stringsOf a) (stringsOf b) := by
   simp only [lawDomain, Bool.and_eq_true] at h
-  exact (coh_of_coherent E _ h.2).mono E (fun x hx => List.mem_flatMap.2 ⟨a, ha, hx⟩)
+  exact (coh_of_strEqOK E _ h.2.1).mono E (fun x hx => List.mem_flatMap.2 ⟨a, ha, hx⟩)
     (fun x hx => List.mem_flatMap.2 ⟨b, hb, hx⟩)
 
 /-- both facts about a pair of the domain -/
